@@ -329,7 +329,11 @@ func (c *ColLowCardinality[T]) Prepare() error {
 	}
 
 	// Fill keys with value indexes.
-	var last int
+	//
+	// New dictionary entries are appended after the ones that are already
+	// there: the column may be prepared more than once between resets
+	// (encoding it again, or appending rows after a block was sent).
+	last := c.index.Rows()
 	for i, v := range c.Values {
 		idx, ok := c.kv[v]
 		if !ok {
